@@ -42,6 +42,13 @@ let wr_strs l = wr_list wr_str l
 let wr_opt f = function None -> wr_int 0 | Some x -> wr_int 1; f x
 let wr_pair f g (x, y) = f x; g y
 
+let exc_name = function
+  | TypeError -> "TypeError" | IndexError -> "IndexError" | AssertionError -> "AssertionError"
+  | ValueError -> "ValueError" | OutOfFuel -> "OutOfFuel"
+let wr_m f = function
+  | Inl x -> f x
+  | Inr e -> Buffer.clear b; Buffer.add_string b ("EXC " ^ exc_name e)
+
 let ports : (string * (rd -> unit)) list ref = ref []
 let port name f = ports := (name, f) :: !ports
 
@@ -54,11 +61,11 @@ let () =
   port "wrap_words" (fun r ->
     let md = rd_bool r in let w = rd_z r in let c0 = rd_z r in let c1 = rd_z r in
     let ws = rd_strs r in
-    wr_list wr_strs (wrap_words ws w c0 c1 md));
+    wr_list wr_strs (wrap_words escape_rx ws w c0 c1 md));
   port "wrap_ok" (fun r ->
     let md = rd_bool r in let w = rd_z r in let c0 = rd_z r in let c1 = rd_z r in
     let ws = rd_strs r in let ls = rd_list rd_strs r in
-    wr_bool (wrap_ok ws w c0 c1 md ls));
+    wr_bool (wrap_ok escape_rx ws w c0 c1 md ls));
   port "rx_finditer" (fun r ->
     let i = nat_of_int (rd_int r) in let s = rd_str r in
     wr_opt (wr_list (fun ((a, e), gs) ->
@@ -69,4 +76,46 @@ let () =
     let w = rd_z r in let c0 = rd_z r in let c1 = rd_z r in
     let rw = rd_bool r in let dw = rd_bool r in let md = rd_bool r in
     let t = rd_str r in
-    wr_strs (wrap_paragraph_lines split_ws t w c0 c1 rw dw md))
+    wr_strs (wrap_paragraph_lines escape_rx split_ws t w c0 c1 rw dw md))
+
+let wrap_mode_of_int = function
+  | 0 -> WNone | 1 -> WWrap | 2 -> WWrapFull | 3 -> WWrapIndent | 4 -> WIndentOnly
+  | 5 -> WHangingIndent | _ -> WMarkdownItem
+
+let () =
+  port "escape_rx" (fun r -> wr_str (escape_rx (rd_str r)));
+  port "word_splitter" (fun r -> wr_m wr_strs (html_md_word_splitter (rd_str r)));
+  port "normalize_adjacent_tags" (fun r -> wr_m wr_str (normalize_adjacent_tags (rd_str r)));
+  port "denormalize_adjacent_tags" (fun r -> wr_m wr_str (denormalize_adjacent_tags (rd_str r)));
+  port "preprocess_tag_block_spacing" (fun r -> wr_str (preprocess_tag_block_spacing (rd_str r)));
+  port "fix_closing_tag_spacing" (fun r -> wr_str (fix_closing_tag_spacing (rd_str r)));
+  port "fix_multiline_opening" (fun r -> wr_m wr_str (fix_multiline_opening_tag_with_closing (rd_str r)));
+  port "line_preds" (fun r -> let s = rd_str r in
+    wr_bool (line_is_block_content s); wr_bool (line_is_list_item s); wr_bool (line_is_table_row s);
+    wr_bool (is_tag_only_line s));
+  port "wpl_md" (fun r ->
+    let w = rd_z r in let c0 = rd_z r in let c1 = rd_z r in
+    let rw = rd_bool r in let dw = rd_bool r in let md = rd_bool r in
+    let t = rd_str r in
+    wr_m wr_strs (wrap_paragraph_lines_md t w c0 c1 rw dw md));
+  port "wrap_paragraph" (fun r ->
+    let w = rd_z r in let ic = rd_z r in
+    let rw = rd_bool r in let dw = rd_bool r in let md = rd_bool r in
+    let i1 = rd_str r in let i2 = rd_str r in let t = rd_str r in
+    wr_m wr_str (wrap_paragraph t w i1 i2 ic rw dw md));
+  port "line_wrap_to_width" (fun r ->
+    let w = rd_z r in let md = rd_bool r in
+    let i1 = rd_str r in let i2 = rd_str r in let t = rd_str r in
+    wr_m wr_str (line_wrap_to_width w md t i1 i2));
+  port "line_wrap_by_sentence" (fun r ->
+    let w = rd_z r in let ml = rd_z r in let md = rd_bool r in
+    let i1 = rd_str r in let i2 = rd_str r in let t = rd_str r in
+    wr_m wr_str (line_wrap_by_sentence w ml md t i1 i2));
+  port "split_sentences" (fun r ->
+    let ml = rd_z r in let t = rd_str r in
+    wr_m wr_strs (split_sentences_regex t ml));
+  port "split_hard_breaks" (fun r -> wr_m wr_strs (split_markdown_hard_breaks (rd_str r)));
+  port "fill_text" (fun r ->
+    let mode = wrap_mode_of_int (rd_int r) in let w = rd_z r in let ic = rd_z r in
+    let extra = rd_str r in let empty = rd_str r in let t = rd_str r in
+    wr_m wr_str (fill_text t mode w extra empty ic))
